@@ -93,7 +93,7 @@ impl InnerProductArgPC {
 //@stub from=ipa.rs id=ipa.compute_random_oracle_challenge
 //@stub from=ipa_shift.rs id=ipa.shift_polynomial
 //@stub from=ipa_open_fold.rs id=ipa.open.folding_rounds
-//@fn id=ipa.open.combination_phase file=poly-commit/src/ipa_pc/mod.rs scope="impl<G, D, P> PolynomialCommitment<G::ScalarField, P> for InnerProductArgPC<G, D, P>" name=open props=C11,C01,C04,C17,C07
+//@fn id=ipa.open.combination_phase file=poly-commit/src/ipa_pc/mod.rs scope="impl<G, D, P> PolynomialCommitment<G::ScalarField, P> for InnerProductArgPC<G, D, P>" name=open props=C11,C01,C04,C17,C07,C19
     fn open<'a>(ck: &CommitterKey, labeled_polynomials: Vec<&'a LabeledPolynomial>, commitments: Vec<&'a LabeledCommitment<Commitment>>, point: &'a Fr, sponge: &mut Sponge,
                 states: Vec<&'a Randomness>, rng: Option<&mut Rng>) -> (res: Result<Proof, Error>)
     requires
@@ -102,9 +102,9 @@ impl InnerProductArgPC {
         forall|i: int| 0 <= i < labeled_polynomials@.len() ==> (#[trigger] labeled_polynomials@[i]).polynomial.wf() && labeled_polynomials@[i].polynomial.coeffs@.len() < 0x4000_0000_0000_0000,
     ensures
         // the prover squeezes exactly like the verifier (succinct_check): one challenge up front, two per polynomial
-        res is Ok ==> final(sponge).st@ == sp_iter(old(sponge).st@, 1 + 2 * min3(labeled_polynomials@.len(), commitments@.len(), states@.len())),   // name=ipa.open.squeeze_schedule_matches_verifier props=C11,C07,C01
+        res is Ok ==> final(sponge).st@ == sp_iter(old(sponge).st@, 1 + 2 * min3(labeled_polynomials@.len(), commitments@.len(), states@.len())),   // name=ipa.open.squeeze_schedule_matches_verifier props=C11,C07,C01,C19
         // COMPLETENESS, prover side: for honest commitments the proof satisfies the verifier's relation for the verifier's own starting commitment and challenges
-        (res is Ok && ipa_all_honest(ck, labeled_polynomials@, commitments@, states@)) ==> ipa_open_ok(ck, labeled_polynomials@, commitments@, states@, point@, old(sponge).st@, &res->Ok_0),   // name=ipa.open.honest_inputs_give_a_proof_the_verifier_accepts props=C01,C10
+        (res is Ok && ipa_all_honest(ck, labeled_polynomials@, commitments@, states@)) ==> ipa_open_ok(ck, labeled_polynomials@, commitments@, states@, point@, old(sponge).st@, &res->Ok_0),   // name=ipa.open.honest_inputs_give_a_proof_the_verifier_accepts props=C01,C10,C19
 //@body
 //@rw 1 /P::zero\(\)/ => Poly::zero()
 //@rw 1 /let polys_iter = labeled_polynomials\.into_iter\(\);/ => let polys_unused__ = 0usize;
